@@ -312,10 +312,15 @@ func (t *translator) stmts(l []ast.Stmt, acts []int, e renv, k cont) string {
 		if v.Init != nil {
 			txt := t.text(v.Init)
 			r, ok := t.spec.Binders[txt]
-			if !ok {
-				panic(trErr{"if-initialiser not in the binder table: " + txt})
+			id, isAct := t.spec.Actions[txt]
+			if !ok && !isAct {
+				panic(trErr{"if-initialiser not in the binder / action table: " + txt})
 			}
 			e2 = e.with(r)
+			if isAct {
+				// an effectful call in the initialiser (err := hook.RunHook(...)): it runs before the condition is tested
+				acts = appendAct(acts, id)
+			}
 		}
 		c, ty := t.expr(v.Cond, e2)
 		if ty != "bool" {
